@@ -511,7 +511,7 @@ func TestVerifC04(t *testing.T) {
 	}
 	kinds := []string{"write", "fsync", "fdatasync", "renameat", "renameat", "openat", "mkdirat", "unlinkat", "unlinkat", "unlinkat", "timer", "timer"}
 	distinctPoints := map[string]bool{}
-	for c := 0; c < verifh.Pick(80, 1500); c++ {
+	for c := 0; c < verifh.Pick(80, 450); c++ {
 		r := verifh.Rand("c04", c)
 		dir := filepath.Join(base, fmt.Sprintf("t%05d", c))
 		os.RemoveAll(dir)
